@@ -72,8 +72,8 @@ def inf_reference():
     """a float reference that is not finite is written as the bare name inf / nan"""
     m = _reset()
     A = m.new_space("A")
-    A.r = float("inf")
-    A.new_cells("c0", formula="def c0(x):\n    return x < r")
+    A.r, A.s, A.v = float("inf"), float("-inf"), float("nan")
+    A.new_cells("c0", formula="def c0(x):\n    return (x < r, x > s, v != v)")
     return _compare(m, ["m.A.c0(1)"])
 
 
@@ -157,9 +157,28 @@ def try_scopes_in_handler_and_else():
     return _compare(m, ["m.A.c0(0)", "m.A.c0(1)"])
 
 
+def param_formula_refs():
+    """references returned by a parameter formula ({'refs': ...}) do not exist in the package's ItemSpaces"""
+    m = _reset()
+    P = m.new_space("P", formula="def _formula(p, q=2):\n    return {'refs': {'t2': p * 10 + q}}")
+    P.new_cells("c0", formula="def c0(x):\n    return t2 + x")
+    return _compare(m, ["m.P[1].c0(1)", "m.P(2, 3).c0(0)"])
+
+
+def param_formula_base():
+    """a parameter formula choosing another base ({'base': ...}) is ignored: the package instantiates P itself"""
+    m = _reset()
+    B = m.new_space("B")
+    B.r = 7
+    B.new_cells("c0", formula="def c0(x):\n    return x + r")
+    P = m.new_space("P", formula="def _formula(p):\n    return {'base': _space.model.B}")
+    P.new_cells("c0", formula="def c0(x):\n    return -1")
+    return _compare(m, ["m.P[1].c0(1)"])
+
+
 ALL = [inf_reference, keyword_named_like_global, parenthesised_name, method_of_local_class,
        comprehension_target_named_like_global, dunder_builtin, class_attribute_named_like_global,
-       model_reference_named_like_cells, try_scopes_in_handler_and_else]
+       model_reference_named_like_cells, try_scopes_in_handler_and_else, param_formula_refs, param_formula_base]
 
 if __name__ == "__main__":
     names = sys.argv[1:]
